@@ -20,7 +20,7 @@ from vlib.core import Stage, fail
 ID = "C12"
 MANIFEST = {
     "category": "exploration",
-    "text": "Schedule exploration by generated-input search: (single) AHB expressions with several modal-mark parts, repeated keys, hints, format constraints and packages occurring several times x content evaluation results x a schedule (list of yield counts consumed call by call by the harness's async RcEvaluator / FcEvaluator methods, HintsProvider and PackageResolver; every third rc method is a plain function). The results of evaluate_ahb_expression_tree (incl. package expansion), requirement_constraint_evaluation and format_constraint_evaluation under the schedule must equal the results under the all-zero schedule and the reference evaluator's selection/outcome; the expanded tree must equal the zero-schedule tree. (concurrent) 2-5 jobs - AHB evaluations and is_valid_expression calls - run as concurrent tasks with yielding ContentEvaluationResult-based evaluators - or a method-based RcEvaluator whose evaluate_<key> coroutines derive their answer from the evaluatable data they are handed - that read the job's own result from a ContextVar; every job must equal its run alone. For is_valid_expression jobs on expressions with 1-3 requirement constraints the harness records which evaluatable data the evaluations of the call were served: exactly the 3^m possible states, each evaluation its own. A third of the concurrent cases use a HintsProvider whose get_hint_text is a plain function reading the job's context-local data.",
+    "text": "Schedule exploration by generated-input search: (single) AHB expressions with several modal-mark parts, repeated keys, hints, format constraints and packages occurring several times x content evaluation results x a schedule (list of yield counts consumed call by call by the harness's async RcEvaluator / FcEvaluator methods, HintsProvider and PackageResolver; every third rc method is a plain function). The results of evaluate_ahb_expression_tree (incl. package expansion), requirement_constraint_evaluation and format_constraint_evaluation under the schedule must equal the results under the all-zero schedule and the reference evaluator's selection/outcome; the expanded tree must equal the zero-schedule tree. (concurrent) 2-5 jobs - AHB evaluations and is_valid_expression calls - run as concurrent tasks with yielding ContentEvaluationResult-based evaluators - or a method-based RcEvaluator whose evaluate_<key> coroutines derive their answer from the evaluatable data they are handed - that read the job's own result from a ContextVar; every job must equal its run alone. For is_valid_expression jobs on expressions with 1-3 requirement constraints the harness records which evaluatable data the evaluations of the call were served: exactly the 3^m possible states, each evaluation its own. A third of the concurrent cases use a HintsProvider whose get_hint_text is a plain function reading the job's context-local data. Half of the is_valid_expression jobs go on to evaluate their expression in the same task; the outcome is judged by the reference and compared between the solo and the concurrent run.",
     "note": "Trusted: the schedule harness (vlib/sched.py), the reference evaluator, attrs equality of result objects. Delays enumerate completion orders among already started awaitables of one single-threaded event loop; threads are out of scope. Process configuration by shard (vlib/sut.py; recorded in replay files): plain / parse caches preheated beyond their size / warnings attributed to ahbicht raised as errors / logging fully enabled with every record rendered; one event loop per process or a new one per call; five process time zones; the hash seed is the shard number; namesakes of ahbicht's marshmallow schema classes are registered.",
     "technique": "property-based schedule exploration (harness-controlled yield counts) with differential (zero schedule) and reference oracles",
 }
@@ -220,7 +220,15 @@ async def _job(index, job):
     cer = sut.make_cer(rc=job["cer"]["rc"], fc=job["cer"]["fc"], hints=job["cer"]["hints"], packages=job["table"])
     _CER.set(cer)
     if job["kind"] == "validity":
-        return await is_valid_expression(job["s"], _CER.set)
+        verdict = await is_valid_expression(job["s"], _CER.set)
+        if verdict[0] is not True or not job.get("then_evaluate"):
+            return verdict
+        # the job goes on in the same task: its own context-local data must still be in place
+        tree = await api.resolve(job["s"], resolve_packages=True)
+        follow_up = await sut.acall(api.evaluate_ahb_expression_tree(tree))
+        if not follow_up.ok and not follow_up.is_a(NotImplementedError):
+            raise follow_up.exc
+        return verdict + (("raised NotImplementedError",) if not follow_up.ok else (follow_up.value,))
     tree = await api.resolve(job["s"], resolve_packages=True)
     return await api.evaluate_ahb_expression_tree(tree)
 
@@ -257,6 +265,18 @@ def check_concurrent(case):
                      f"reference says {expected_fulfilled!r}")  # fmt: skip
         if job["kind"] == "validity" and res.ok and res.value[0] is True:
             _all_possible_results_seen(index, job, "run on its own")
+            if len(res.value) == 3:
+                # evaluated right after the validity check, in the same task: judged by the job's own data
+                parts = [p[:2] for p in job["parts"]]
+                expected_fulfilled = ref.part_fulfilled(parts[0][1], job["cer"]["rc"])
+                got = res.value[2]
+                if expected_fulfilled is None and ref.normalise_indicator(parts[0][0]) in ("MUSS", "X", "O", "U", "SOLL", "KANN"):
+                    pass  # undetermined: NotImplementedError or an undetermined result, not judged here
+                elif got == "raised NotImplementedError" or (
+                    got.requirement_constraint_evaluation_result.requirement_constraints_fulfilled is not expected_fulfilled
+                ):
+                    fail("reference", f"job {index}: evaluation of {job['s']!r} right after is_valid_expression in the same task, own "
+                         f"data rc={job['cer']['rc']}: {got!r}, the reference says fulfilled = {expected_fulfilled!r}")  # fmt: skip
         if job["kind"] == "validity" and res.ok:
             verdict = "invalid" if any(ref.validity(p[1]) == "invalid" for p in job["parts"] if p[1] is not None) else "valid"
             if (res.value[0] is True) != (verdict == "valid"):
@@ -284,6 +304,9 @@ def check_concurrent(case):
                      f"concurrently with {len(jobs) - 1} others, {single.value!r} alone")  # fmt: skip
             if concurrent.value[0] is True:
                 _all_possible_results_seen(index, jobs[index], f"run concurrently with {len(jobs) - 1} other jobs")
+            if len(single.value) == 3 and single.value[2] != concurrent.value[2]:
+                fail("job-differs", f"job {index}: evaluation of {jobs[index]['s']!r} right after is_valid_expression under "
+                     f"rc={jobs[index]['cer']['rc']}: {concurrent.value[2]!r} when run concurrently, {single.value[2]!r} alone")  # fmt: skip
         elif single.ok and single.value != concurrent.value:
             fail("job-differs", f"job {index} ({jobs[index]['kind']} of {jobs[index]['s']!r}) under rc={jobs[index]['cer']['rc']}: "
                  f"{concurrent.value!r} when run concurrently with {len(jobs) - 1} others, {single.value!r} alone")  # fmt: skip
@@ -348,7 +371,8 @@ def strategy_concurrent(tier):
                     ast = draw(gen.g_dom_invalid(max_atoms=size, pools=vtree.POOLS))
                 indicator = draw(gen.indicator_text(gen.MODAL_WORDS + ["X", "O", "U"]))
                 text = f"{indicator} {gen.render(draw, ast, redundant=False, top=False)} "
-                jobs.append({"kind": kind, "s": text, "parts": [[indicator, ast]], "table": {}, "cer": draw(vtree.g_cer())})
+                jobs.append({"kind": kind, "s": text, "parts": [[indicator, ast]], "table": {}, "cer": draw(vtree.g_cer()),
+                             "then_evaluate": draw(st.booleans())})
             else:
                 expr, table = draw(_expression(size))
                 jobs.append({"kind": kind, "s": expr["s"], "parts": expr["parts"], "table": table, "cer": draw(vtree.g_cer())})
